@@ -1,6 +1,26 @@
 """C15 worker: higher-order reduction.  Runs reduce_binary_polynomial / make_quadratic /
 make_quadratic_cqm / HigherOrderComposite on the implementation and renders what it
-returned as Coq `case` terms for Model/ChkC15.v."""
+returned as Coq `case` terms for Model/ChkC15.v.
+
+Coverage map (clause of the property / entry point -> stream that reaches it):
+  "every binary polynomial": how the polynomial is BUILT is part of the pipeline
+      BinaryPolynomial(dict)                      all kinds (default)
+      BinaryPolynomial(iterable) with the same monomial under several keys / repeated entries / list keys,
+      BinaryPolynomial(polynomial), copy()        kind 'ctor' (forms iter, copy) ; `via` iter/copy in reduce/mq/cqm/hoc
+      from_hubo(H[, offset]) with a () key in H, keys with repeated variables, offset absent/None/0/value
+                                                  kind 'ctor' form hubo ; `via` ctor (BINARY) in reduce/mq/cqm/hoc
+      from_hising(h, J[, offset]) with single-variable / cancelling / () keys in J
+                                                  kind 'ctor' form hising ; `via` ctor (SPIN) in reduce/mq/cqm/hoc
+      to_hubo / to_hising of either vartype       kind 'ctor' (back = own vartype, cross = through to_binary / to_spin)
+      raw dict + vartype string                   mq / cqm with an even number of terms (use_poly False)
+  degree <= 2 and exactness on consistent assignments: reduce_binary_polynomial -> 'reduce' ; make_quadratic -> 'mq'
+      (bqm= unset / same vartype / other vartype, vartype= given or not) ; make_quadratic_cqm -> 'cqm' (cqm= unset / set)
+  penalty >= 0 (AND gate, spin product with auxiliary): theorems over the tables translated from the source ; 'mq'
+      compares every coefficient
+  HigherOrderComposite reports polynomial energies: 'hoc' (sample_poly / sample_hising / sample_hubo ; keep / discard
+      in {unset, True, False} ; children returning float64 / float32 / int energies, no rows, only the first rows)
+  overlap pattern of terms / repeated variables / constants / label kinds: rand_poly (shared core, multiplicities up
+      to 6, constants, integer labels with their str() forms, labels colliding with invented names)"""
 import itertools
 from fractions import Fraction
 import numpy as np
@@ -12,7 +32,7 @@ from wlib import cq, clist, cnat, cpair, cbool
 import gen
 from gen import F, enc_label, dec_label, LabelTable, coq_obs
 
-KINDS = ['reduce', 'reduce', 'mq', 'mq', 'cqm', 'hoc']
+KINDS = ['reduce', 'reduce', 'mq', 'mq', 'cqm', 'hoc', 'ctor']
 STRENGTHS = ['1/2', '1', '2', '3']
 # labels chosen to collide with the names the reduction invents ('u*v', 'auxu,v')
 TRICKY = ['0*1', '1*0', 'a*b', 'b*a', 'aux0,1', 'aux1,0', 'auxa,b', '_0*1', '0*1*2', 'auxa,b*c',
@@ -103,9 +123,70 @@ def rand_poly(rng, tier, nmax=6, dmax=5, tmax=7, namesakes=3, mirror_ok=True):
     return vartype, out
 
 
+def gen_via(rng, vartype, terms):
+    """how the polynomial handed to the pipeline is built (None: BinaryPolynomial(dict, vartype))"""
+    x = rng.random()
+    if x < 0.62:
+        return None
+    if x < 0.82:
+        # from_hubo / from_hising; the offset comes ON TOP of a constant the terms may already hold
+        return {"form": "ctor", "off": rng.choice([None, "0", str(rng.dyadic(8, 2) or Fraction(3)), str(rng.dyadic(8, 2) or Fraction(1))])}
+    if x < 0.94:
+        return {"form": "iter", "dups": [[rng.randrange(64), str(rng.dyadic(8, 2) or Fraction(1)), rng.choice([True, False])]
+                                         for _ in range(rng.randint(1, 3))]}
+    return {"form": "copy"}
+
+
+def gen_ctor(rng, tier):
+    """the constructors / exporters of BinaryPolynomial on their own"""
+    vartype, terms = rand_poly(rng, tier, nmax=5, dmax=4, tmax=5, namesakes=0, mirror_ok=False)
+    if rng.random() < 0.1:
+        terms = []
+    if rng.random() < 0.08:
+        terms = [t for t in terms if not t[0]][:1]
+    labels = list(dict.fromkeys(x_ for t, _b in terms for x_ in map(repr, t)))
+    bias = lambda: str(rng.dyadic(8, 2) or Fraction(1))
+    extra = []
+    for t, _b in terms:
+        if len(t) >= 2 and rng.random() < 0.35:         # the same monomial under another key
+            u = list(t)
+            rng.shuffle(u)
+            if rng.random() < 0.4:
+                u.insert(rng.randrange(len(u) + 1), rng.choice(u))
+            extra.append([u, bias()])
+        if t and rng.random() < 0.15:                    # a key whose variables cancel (SPIN) / collapse (BINARY)
+            extra.append([[t[0], t[0]], bias()])
+    if rng.random() < 0.35 and not any(not t for t, _b in terms):
+        extra.append([[], bias()])
+    terms = terms + extra
+    rng.shuffle(terms)
+    seen, out = set(), []
+    form = rng.choice(['dict', 'iter', 'iter', 'copy', 'hubo', 'hubo', 'hising', 'hising'])
+    if form == 'hubo':
+        vartype = 'BINARY'
+    if form == 'hising':
+        vartype = 'SPIN'
+    for t, b in terms:
+        k = repr(t)
+        if k not in seen or (form == 'iter' and rng.random() < 0.5):
+            seen.add(k)
+            out.append([t, b])
+    c = {"kind": "ctor", "vartype": vartype, "form": form, "terms": out, "aseed": rng.randrange(1 << 30)}
+    if form in ('hubo', 'hising'):
+        c["off_mode"] = rng.choice(['absent', 'none', 'val', 'val', 'val'])
+        c["off"] = rng.choice(["0", bias(), bias()]) if c["off_mode"] == 'val' else None
+    if form == 'iter':
+        c["keyforms"] = [rng.choice(['tuple', 'list', 'frozenset', 'iter']) for _ in out]
+    if form == 'copy':
+        c["copy_how"] = rng.choice(['copy', 'ctor', 'other_vartype'])
+    return c
+
+
 def gen_case(rng, tier):
     kind = rng.choice(KINDS)
     big = tier == 'thorough'
+    if kind == 'ctor':
+        return gen_ctor(rng, tier)
     if kind == 'hoc':
         vartype, terms = rand_poly(rng, tier, nmax=4, dmax=4, tmax=4, namesakes=1, mirror_ok=False)
         x = rng.random()
@@ -117,17 +198,18 @@ def gen_case(rng, tier):
         elif x < 0.14:
             terms = [t for t in terms if len(set(map(repr, t[0]))) <= 2] or [[[], "1"]]
         # 'empty' / 'head': a child that returns no row / only its first rows
-        child = rng.choice(['f64', 'f64', 'f64', 'f32', 'int', 'int', 'empty', 'head'])
+        # 'init': a child that accepts initial_state (expand_initial_state: products and minimising auxiliaries)
+        child = rng.choice(['f64', 'f64', 'f64', 'f32', 'int', 'int', 'empty', 'head', 'init', 'init'])
         if child == 'f32':
             # a constant that float64 holds exactly and float32 does not
             terms = [t for t in terms if t[0]] + [[[], str(2 ** 24 + 1 + rng.randint(0, 6) * 2)]]
-        return {"kind": kind, "vartype": vartype, "terms": terms, "child": child,
+        return {"kind": kind, "vartype": vartype, "terms": terms, "child": child, "via": gen_via(rng, vartype, terms),
                 "api": rng.choice(['poly', 'poly', 'hising' if vartype == 'SPIN' else 'hubo']),
                 "strength": rng.choice(STRENGTHS),
                 "keep": rng.choice([True, False, None]), "discard": rng.choice([True, False, None]),
                 "rowseed": rng.randrange(1 << 30)}
     vartype, terms = rand_poly(rng, tier, nmax=8 if big else 6, dmax=6 if big else 5, tmax=10 if big else 7)
-    c = {"kind": kind, "vartype": vartype, "terms": terms}
+    c = {"kind": kind, "vartype": vartype, "terms": terms, "via": gen_via(rng, vartype, terms)}
     if kind == 'mq':
         c["strength"] = rng.choice(STRENGTHS)
     if kind in ('mq', 'cqm') and rng.random() < 0.55:
@@ -172,6 +254,21 @@ class CastChild(dimod.Sampler):
                                             vartype=ss.vartype, num_occurrences=rec.num_occurrences)
 
 
+class InitChild(dimod.Sampler):
+    """a child sampler that accepts initial_state and returns exactly that state with the energy of the model it was given"""
+    parameters = None
+    properties = None
+
+    def __init__(self):
+        self.parameters = {"initial_state": []}
+        self.properties = {}
+        self.got = None
+
+    def sample(self, bqm, initial_state=None, **kwargs):
+        self.got = None if initial_state is None else dict(initial_state)
+        return dimod.SampleSet.from_samples_bqm(initial_state, bqm)
+
+
 class Recorder(dimod.Sampler):
     """passes everything to the wrapped sampler and keeps the sample set it returned"""
     parameters = None
@@ -198,6 +295,134 @@ def raw_dict(c):
     return {tuple(dec_label(x) for x in t): float(F(b)) for t, b in c["terms"]}
 
 
+def build_poly(c, raw, vt):
+    """the polynomial handed to the pipeline, and the list of (term, bias) whose sum it documents to be"""
+    via = c.get("via")
+    raw_items = [(list(k), b) for k, b in raw.items()]
+    if not via:
+        return dimod.BinaryPolynomial(raw, vt), raw_items
+    if via["form"] == 'ctor':
+        off = None if via.get("off") is None else F(via["off"])
+        okw = () if off is None else (float(off),)
+        extra = [] if off is None else [([], off)]
+        if vt == 'BINARY':
+            return dimod.BinaryPolynomial.from_hubo(dict(raw), *okw), raw_items + extra
+        h, J = {}, {}
+        for k, b in raw.items():
+            if len(k) == 1 and k[0] not in h:
+                h[k[0]] = b
+            else:
+                J[k] = b
+        return dimod.BinaryPolynomial.from_hising(h, J, *okw), raw_items + extra
+    if via["form"] == 'iter':
+        keys = [k for k in raw if len(k) >= 1] or list(raw)
+        dups = []
+        for i, b, rev in via["dups"]:
+            k = list(keys[i % len(keys)])
+            dups.append((list(reversed(k)) if rev else k, float(F(b))))
+        return dimod.BinaryPolynomial(list(raw.items()) + [(tuple(k), b) for k, b in dups], vt), raw_items + dups
+    return dimod.BinaryPolynomial(raw, vt).copy(), raw_items
+
+
+def run_ctor(c):
+    BP = dimod.BinaryPolynomial
+    vt, form = c["vartype"], c["form"]
+    T = LabelTable()
+    terms = [([dec_label(x) for x in t], F(b)) for t, b in c["terms"]]
+    feats = {"kind": "ctor", "form": form, "vartype": vt}
+    py_fail = None
+    extra_coq = []
+    off = None
+    if form in ('hubo', 'hising'):
+        feats["off_mode"] = c["off_mode"]
+        off = F(c["off"]) if c["off_mode"] == 'val' else None
+        okw = {'absent': (), 'none': (None,), 'val': (float(off) if off is not None else None,)}[c["off_mode"]]
+    orig = list(dict.fromkeys(x for t, _b in terms for x in t))
+    for x in orig:
+        T.idx(x)
+    if form == 'hubo':
+        H = {tuple(t): float(b) for t, b in terms}
+        snapshot = dict(H)
+        poly = BP.from_hubo(H, *okw)
+        if H != snapshot:
+            py_fail = "from_hubo modified the dictionary it was given"
+        ck = f"(KHubo {hp(T, terms)} {wlib.copt(None if off is None else cq(off))})"
+        feats["const_in_H"] = any(not t for t, _b in terms)
+    elif form == 'hising':
+        h, J, hl, Jl = {}, {}, [], []
+        for t, b in terms:
+            if len(t) == 1 and t[0] not in h and len(hl) % 3 != 2:
+                h[t[0]] = float(b)
+                hl.append((t[0], b))
+            else:
+                J[tuple(t)] = float(b)
+                Jl.append((t, b))
+        poly = BP.from_hising(h, J, *okw)
+        ch = clist([cpair(cnat(T.idx(v)), cq(b)) for v, b in hl])
+        ck = f"(KHising {ch} {hp(T, Jl)} {wlib.copt(None if off is None else cq(off))})"
+        feats["lin_in_J"] = any(len(t) == 1 for t, _b in Jl)
+    elif form == 'dict':
+        poly = BP({tuple(t): float(b) for t, b in terms}, vt)
+        ck = f"(KInit {vt} {hp(T, terms)})"
+    elif form == 'iter':
+        mk = {'tuple': tuple, 'list': list, 'iter': tuple,
+              'frozenset': lambda t: frozenset(t) if len(set(map(repr, t))) == len(t) else tuple(t)}
+        pairs = [(mk[kf](t), float(b)) for (t, b), kf in zip(terms, c.get("keyforms") or ['tuple'] * len(terms))]
+        poly = BP(iter(pairs), vt)
+        ck = f"(KInit {vt} {hp(T, terms)})"
+    else:
+        how = c.get("copy_how", "copy")
+        inner = BP({tuple(t): float(b) for t, b in terms}, vt)
+        inner_items = [(list(k), F(b)) for k, b in inner.items()]
+        if how == 'copy':
+            poly = inner.copy()
+        elif how == 'ctor':
+            poly = BP(inner, vt)
+        else:
+            # the other vartype and back: to_spin / to_binary must give the same function
+            poly = inner.to_spin(copy=True).to_binary() if vt == 'BINARY' else inner.to_binary(copy=True).to_spin()
+        feats["copy_how"] = how
+        if poly is inner or poly._terms is inner._terms:
+            py_fail = "the copy shares its terms with the original"
+        if how == 'other_vartype':
+            # only the function is documented to survive: energies are compared (in Coq) against the terms given
+            ck = None
+        else:
+            ck = f"(KInit {vt} {hp(T, inner_items)})"
+            extra_coq.append(f"(CInput {vt} {hp(T, terms)} {hp(T, inner_items)})")
+    if poly.vartype is not gen.VT[vt]:
+        py_fail = f"vartype of the polynomial is {poly.vartype}"
+    before = dict(poly._terms)
+    items = [(list(k), F(b)) for k, b in poly.items()]
+    h2, J2, o2 = poly.to_hising()
+    H2, o3 = poly.to_hubo()
+    if dict(poly._terms) != before:
+        py_fail = "to_hising / to_hubo modified the polynomial"
+    if any(len(k) == 0 for k in H2):
+        py_fail = "to_hubo emitted a constant term inside H"
+    if any(len(k) < 2 for k in J2):
+        py_fail = "to_hising emitted a term of degree < 2 inside J"
+    ising = ([([v], F(b)) for v, b in h2.items()] + [(list(k), F(b)) for k, b in J2.items()], F(o2))
+    hubo = ([(list(k), F(b)) for k, b in H2.items()], F(o3))
+    back, cross = (hubo, ising) if vt == 'BINARY' else (ising, hubo)
+    values = (0, 1) if vt == 'BINARY' else (-1, 1)
+    rs = wlib.Rng(c["aseed"])
+    if len(orig) <= 4:
+        assigns = list(itertools.product(values, repeat=len(orig)))
+    else:
+        assigns = [tuple(rs.choice(values) for _ in orig) for _ in range(12)]
+    ca = clist([clist([cpair(cnat(T.idx(l)), cq(x)) for l, x in zip(orig, a)]) for a in assigns])
+    pr = lambda tb: f"({hp(T, tb[0])}, {cq(tb[1])})"
+    if ck is None:
+        coq = f"(CFun {vt} {hp(T, terms)} {hp(T, items)} {ca})"
+    else:
+        coq = f"(CCtor {ck} {hp(T, items)} {pr(back)} {pr(cross)} {ca})"
+    feats["nterms"] = len(terms)
+    return {"coq": coq, "extra_coq": extra_coq, "py_fail": py_fail, "features": feats,
+            "nontrivial": len(terms) > 0,
+            "observed": {"poly": repr(poly), "to_hising": repr((h2, J2, o2)), "to_hubo": repr((H2, o3))}}
+
+
 def hp(T, items):
     return clist([cpair(clist([cnat(T.idx(x)) for x in k]), cq(F(b))) for k, b in items])
 
@@ -209,6 +434,8 @@ def unpair(pair):
 
 def run_case(c):
     kind = c["kind"]
+    if kind == 'ctor':
+        return run_ctor(c)
     vt = c["vartype"]
     raw = raw_dict(c)
     T = LabelTable()
@@ -217,8 +444,10 @@ def run_case(c):
              "maxdeg": max((len(set(k)) for k in raw), default=0)}
     values = (0, 1) if vt == 'BINARY' else (-1, 1)
     py_fail = None
+    if c.get("via"):
+        feats["via"] = c["via"]["form"] + ("+off" if c["via"].get("off") is not None else "")
     if kind == 'reduce':
-        poly = dimod.BinaryPolynomial(raw, vt)
+        poly, raw_items = build_poly(c, raw, vt)
         items = [(list(k), b) for k, b in poly.items()]
         reduced, constraints = reduce_binary_polynomial(poly)
         cons = []
@@ -249,9 +478,9 @@ def run_case(c):
                 "observed": {"reduced": repr(reduced), "constraints": repr(constraints)}}
     if kind == 'mq':
         s = F(c["strength"])
-        poly = dimod.BinaryPolynomial(raw, vt)
+        poly, raw_items = build_poly(c, raw, vt)
         items = [(list(k), b) for k, b in poly.items()]
-        use_poly = len(c["terms"]) % 2 == 0
+        use_poly = len(c["terms"]) % 2 == 0 or bool(c.get("via"))
         base, base_obs, cbase = None, None, "None"
         if c.get("base"):
             bd = c["base"]
@@ -298,9 +527,9 @@ def run_case(c):
         return {"coq": coq, "py_fail": py_fail, "features": feats, "nontrivial": len(cons) > 0,
                 "observed": {"bqm": o, "reduction": repr(red)}}
     if kind == 'cqm':
-        poly = dimod.BinaryPolynomial(raw, vt)
+        poly, raw_items = build_poly(c, raw, vt)
         items = [(list(k), b) for k, b in poly.items()]
-        use_poly = len(c["terms"]) % 2 == 0
+        use_poly = len(c["terms"]) % 2 == 0 or bool(c.get("via"))
         base_obs, cbase = None, "None"
         if c.get("base"):
             base_cqm = dimod.ConstrainedQuadraticModel()
@@ -351,8 +580,16 @@ def run_case(c):
     keep = bool(c["keep"])            # default False
     discard = bool(c["discard"])      # default False
     child = c.get("child", "f64")
-    partial = child in ('empty', 'head')
-    if child == 'f64':
+    nvars0 = len(dimod.BinaryPolynomial(raw, vt).variables)
+    if child == 'init' and nvars0 == 0:
+        child = 'f64'
+    partial = child in ('empty', 'head', 'init')
+    if child == 'init':
+        inner = InitChild()
+        rs0 = wlib.Rng(c["rowseed"] + 17)
+        init_state = {v: rs0.choice(values) for v in sorted(dimod.BinaryPolynomial(raw, vt).variables, key=repr)}
+        kw["initial_state"] = dict(init_state)
+    elif child == 'f64':
         inner = dimod.ExactSolver()
     elif partial:
         inner = CastChild(np.float64, head=0 if child == 'empty' else 1 + c["rowseed"] % 5)
@@ -360,12 +597,13 @@ def run_case(c):
         inner = CastChild(np.float32 if child == 'f32' else np.int64)
     recorder = Recorder(inner)
     sampler = dimod.HigherOrderComposite(recorder)
-    api = c["api"]
+    api = 'poly' if c.get("via") else c["api"]
+    poly0, spec_items = build_poly(c, raw, vt)
     feats.update(api=api, keep=c["keep"], discard=c["discard"], child=child)
     nvars0 = len(dimod.BinaryPolynomial(raw, vt).variables)
     try:
         if api == 'poly':
-            ss = sampler.sample_poly(dimod.BinaryPolynomial(raw, vt), **kw)
+            ss = sampler.sample_poly(poly0, **kw)
         elif api == 'hising':
             h = {k[0]: b for k, b in raw.items() if len(k) == 1}
             J = {k: b for k, b in raw.items() if len(k) != 1}
@@ -379,6 +617,11 @@ def run_case(c):
         return {"coq": None, "py_fail": f"HigherOrderComposite raised {type(e).__name__}: {e}", "features": feats,
                 "nontrivial": False}
     poly = dimod.BinaryPolynomial(raw, vt)
+    if c.get("via"):
+        # the rows are evaluated on `poly` (the plain polynomial of the terms plus the offset): the polynomial that was
+        # actually sampled must be that one
+        # (both are tied to the terms by CInput below)
+        poly = dimod.BinaryPolynomial([(tuple(k_), float(b_)) for k_, b_ in spec_items], vt)
     orig = list(poly.variables)
     red = ss.info.get('reduction', {})
     cons = [(u, v, d['product']) for (u, v), d in red.items()]
@@ -439,6 +682,25 @@ def run_case(c):
     coq = f"(CHoc {hp(T, [(list(k), b) for k, b in poly.items()])} {ccons} {cbool(keep)} {cvars} {crow})"
     feats["ncons"] = nprod
     extra = []
+    if child == 'init':
+        got = inner.got
+        if got is None:
+            py_fail = py_fail or "the child sampler did not receive an initial_state"
+        else:
+            if kw["initial_state"] != init_state:
+                py_fail = py_fail or "sample_poly modified the initial_state it was given"
+            cons4 = [(u, v, d['product'], d.get('auxiliary')) for (u, v), d in red.items()]
+            for x in got:
+                T.idx(x)
+            cc4 = clist([f"({cnat(T.idx(u))}, {cnat(T.idx(v))}, {cnat(T.idx(p))}, {cnat(T.idx(w) if w is not None else 0)})"
+                         for u, v, p, w in cons4])
+            lst = lambda d: clist([cpair(cnat(T.idx(k_)), cq(int(x_))) for k_, x_ in d.items()])
+            cen = F(recorder.last.record.energy[0])
+            extra.append(f"(CInit {vt} {hp(T, [(list(k), b) for k, b in poly.items()])} {cc4} {lst(init_state)} {lst(got)} {cq(cen)})")
+            feats["init"] = True
+    if c.get("via"):
+        extra.append(f"(CInput {vt} {hp(T, spec_items)} {hp(T, [(list(k), b) for k, b in poly0.items()])})")
+        extra.append(f"(CInput {vt} {hp(T, spec_items)} {hp(T, [(list(k), b) for k, b in poly.items()])})")
     child = recorder.last
     if child is not None and len(child) <= 96:
         # the whole bookkeeping of polymorph_response: which rows are kept, in which order, with which columns
